@@ -7,7 +7,7 @@
 (*                                                                          *)
 (* RegionClient.tla is the implementation-shaped model; the invariants here *)
 (* are the same properties stated on the observable projection.             *)
-EXTENDS Integers, Sequences, FiniteSets, TLC, Json
+EXTENDS Integers, Sequences, FiniteSets, TLC, Json, ErrorClasses
 T == ndJsonDeserialize("rc_trace.ndjson")
 
 VARIABLES i,
@@ -40,7 +40,8 @@ Next ==
                              /\ UNCHANGED <<submitted, reqs, answers, results, closed>>
        [] e.ev = "srvreq" -> /\ reqs' = Ext(reqs, e.id, e.calls) /\ lastQ' = <<>>
                              /\ UNCHANGED <<submitted, cancelled, answers, results, closed>>
-       [] e.ev = "srvresp" -> /\ answers' = Ext(answers, e.id, [kind |-> e.kind, calls |-> e.calls, ncells |-> e.ncells])
+       [] e.ev = "srvresp" -> /\ answers' = Ext(answers, e.id, [kind |-> e.kind, calls |-> e.calls, ncells |-> e.ncells,
+                                                               excs |-> IF "excs" \in DOMAIN e THEN e.excs ELSE <<>>])
                               /\ lastQ' = <<>> /\ UNCHANGED <<submitted, cancelled, reqs, results, closed>>
        [] e.ev = "result" -> /\ results' = Ext(results, e.call, Append(IF e.call \in DOMAIN results THEN results[e.call] ELSE <<>>,
                                                                        [kind |-> e.kind, row |-> e.row, ncells |-> e.ncells]))
@@ -66,6 +67,15 @@ OwnResponse ==
         /\ \E id \in AnsweredOK(c) : /\ c \in ToSet(reqs[id])
                                      /\ results[c][k].ncells = NcellsFor(c, id)   \* all of its cells, none of another's
         /\ (results[c][k].ncells > 0 => results[c][k].row = c)       \* and they are its own
+
+(* a call the server answered with an exception gets that exception's class, and only that call (or, for a
+   per-region exception, every call of that region) *)
+ExcsFor(c) == {x \in UNION {ToSet(answers[id].excs) : id \in DOMAIN answers} : x.call = c}
+OwnException ==
+  \A c \in DOMAIN results : \A k \in 1..Len(results[c]) :
+     /\ (ExcsFor(c) # {} /\ AnsweredOK(c) = {} /\ results[c][k].kind # "server")
+           => \E x \in ExcsFor(c) : results[c][k].kind = Classify(x.class, x.wal)
+     /\ (results[c][k].kind \in {"retryable", "notserving", "other"}) => ExcsFor(c) # {} \/ results[c][k].kind = "retryable"
 
 OnlySubmittedGetResults == \A c \in DOMAIN results : results[c] # <<>> => c \in submitted
 
